@@ -154,7 +154,7 @@ def c04(ctx):
     rejs += fault_family(ctx, "crash-epochs-failopen", "crash", CORES // 2, 10 if q else 100, 25, ["-epochs", "-failopen"])
     # strict mode: simulated unclean shutdowns (garbage appended, bytes cut off) and recovery, with the rebuilt index and
     # the re-derived segment meta data checked against Layer B (DRIFT only) and the recordings against Layer A
-    rejs += ctx.validate(strict_wal(ctx, "recover-strict", 4 if q else 16, 3 if q else 8, 150, 24, ALLFS, ["-tear"]))
+    rejs += ctx.validate(strict_wal(ctx, "recover-strict", 4 if q else 16, 3, 150, 24, ALLFS, ["-tear"]))
     rejs += wal_replay(ctx, "gen_wal_crash5", "crash5", "crash", 200 if q else 4000, extra=["-twice", "-depth", "1"],
                        want=lambda b: sum(1 for e in b if e["op"] in ("crash", "tornput")) >= 1)
     if not q:
@@ -250,7 +250,7 @@ def c01(ctx):
     outs = seq_jobs(ctx, "seq-small", 4, 6 if q else 40, 60, 10, ("crashfs", "mem", "os", "osmmap"))
     outs += seq_jobs(ctx, "seq-chains", 12, 3 if q else 20, 260 if q else 500, 72, ("crashfs", "crashfs", "osmmap", "mem", "os", "crashfs"))
     outs += seq_jobs(ctx, "seq-long-chains", 4, 2 if q else 16, 400, 170, ("crashfs", "osmmap", "mem", "os"), ["-oneclass"])
-    outs += strict_wal(ctx, "seq-strict", 4 if q else 16, 3 if q else 8, 200, 72, ALLFS)
+    outs += strict_wal(ctx, "seq-strict", 4 if q else 12, 3, 200, 72, ALLFS)
     rejs = regress(ctx) + ctx.validate(outs) + lh_replay(ctx, 60 if q else 1500, mult=None)
     ctx.sample_from(outs[0], 1)
     ctx.report_rejections(rejs, describe_generic)
@@ -285,7 +285,7 @@ def c02(ctx):
     wal_models(ctx, "crash", ["D11"])
     outs = seq_jobs(ctx, "restart-alt", 8, 8 if q else 40, 300, 64, ("os", "osmmap"), ["-alt", "-sessions"])
     outs += seq_jobs(ctx, "restart", 8, 8 if q else 40, 300, 64, ALLFS, ["-alt", "-sessions", "-nopin"])
-    outs += strict_wal(ctx, "restart-strict", 4 if q else 16, 3 if q else 8, 150, 24, ALLFS, ["-sessions"])
+    outs += strict_wal(ctx, "restart-strict", 4 if q else 16, 3, 150, 24, ALLFS, ["-sessions"])
     rejs = regress(ctx) + ctx.validate(outs)
     ctx.sample_from(outs[0], 1)
     ctx.report_rejections(rejs, describe_generic)
